@@ -134,6 +134,27 @@ def canonicalise(tree: ast.AST) -> None:
                             ast.copy_location(n_, st)
                     ast.fix_missing_locations(new)
                     seq[i] = new
+    # t = <expr>; assert t[, msg]   /   t = <expr>; if t: ..      (t read nowhere else)   ->   the test is <expr>
+    for fn_ in ast.walk(tree):
+        if not isinstance(fn_, (ast.FunctionDef, ast.AsyncFunctionDef)):
+            continue
+        for node in ast.walk(fn_):
+            for fld in ("body", "orelse", "finalbody"):
+                seq = getattr(node, fld, None)
+                if not (isinstance(seq, list) and seq and isinstance(seq[0], ast.stmt)):
+                    continue
+                i = 0
+                while i + 1 < len(seq):
+                    a_, b_ = seq[i], seq[i + 1]
+                    if isinstance(a_, ast.Assign) and len(a_.targets) == 1 and isinstance(a_.targets[0], ast.Name) and isinstance(b_, (ast.Assert, ast.If)) \
+                            and isinstance(b_.test, ast.Name) and b_.test.id == a_.targets[0].id and isinstance(a_.value, (ast.Compare, ast.BoolOp, ast.UnaryOp, ast.Call)):
+                        nm_ = a_.targets[0].id
+                        uses_ = [x for x in ast.walk(fn_) if isinstance(x, ast.Name) and x.id == nm_]
+                        if len(uses_) == 2:
+                            b_.test = a_.value
+                            del seq[i]
+                            continue
+                    i += 1
     # X = D.get(K); if X is not None [and R]: BODY      ->   if K in D: X = D[K]; [if R:] BODY
     # (X read nowhere else in the function; a table whose values are names, never None)
     for fn_ in ast.walk(tree):
@@ -573,7 +594,8 @@ def canonicalise(tree: ast.AST) -> None:
                             n_.ctx = ast.Load()
                     # only for lists: the receiver is bound by list(..) / a list display / a comprehension in this scope
                     fn_ = None
-                    seq[i] = ast.copy_location(ast.Expr(value=ast.Call(func=ast.Attribute(value=recv, attr="pop", ctx=ast.Load()), args=[t_.slice], keywords=[])), st) if _bound_to_list(tree, t_.value.id) else st
+                    seq[i] = ast.copy_location(ast.Expr(value=ast.Call(func=ast.Attribute(value=recv, attr="pop", ctx=ast.Load()), args=[t_.slice], keywords=[])), st) if (_bound_to_list(tree, t_.value.id) or (isinstance(t_.slice, ast.Constant) and isinstance(t_.slice.value, str))) else st
+                    # (a string key: the receiver is a mapping, `del d["k"]` is `d.pop("k")` as a statement)
                     ast.fix_missing_locations(seq[i])
     # p = X.index(y); if C: X.pop(p) else: X[p] = v    ->   if C: X.pop(X.index(y)) else: X[X.index(y)] = v
     # (the position is computed right before the if-statement that holds all its uses, one per arm)
